@@ -87,6 +87,31 @@ CHECKS.update({
         note="np.round(.,10) modelled as identity; step h = 0.01 as in the code; n <= 3."),
 })
 
+
+CHECKS.update({
+    "C02": dict(level="model_checking", design="3/C02",
+        text="Three layers: every Term class with opaque children equals its operator on the children's values (any depth by "
+             "structural induction); for generated formulas the real parse_expression/sympy_recursion output evaluates, for all "
+             "states/parameters/t/volume, to the value of the parsed sympy tree and - on the exact fragment - to the formula as "
+             "written; unknown names and unsupported functions are rejected at build time.",
+        note="sympy runs natively and is trusted for canonicalisation; exp/log/pow uninterpreted; rational constants exact; "
+             "formulas beyond the exhaustive core are sampled with VERIF_SEED (depth <= 4)."),
+    "C03": dict(level="model_checking", design="3/C03",
+        text="Reaction structures (reactant/product/delayed lists over a 3-species pool, all declaration orders, three propensity "
+             "types) are explored exhaustively by path forking through the real Model construction code and the matrices compared "
+             "with products-minus-reactants; the derivative identity dx = (U+D)*rate is decided by z3 for symbolic matrices and "
+             "arbitrary rate vectors (plain and safe interface) and on a real model; valueless parameters make initialisation fail.",
+        note="list lengths <= 3 (quick 2), matrices up to 3x3 with entries in [-4,4]; safe interface in the interior of the orthant."),
+    "C04": dict(level="model_checking", design="3/C04",
+        text="With odeint replaced by its contract, the real deterministic entry point is shown - for all states, times and "
+             "parameters of two concrete networks (mass action with delayed products, Hill/proportional Hill/time-dependent "
+             "general) - to hand the integrator exactly the model's rate equations, a copy of the initial condition, the user's "
+             "grid, default tolerances and state-first argument order, to report the integrator's rows unchanged on that grid, "
+             "and to follow the documented retry ladder ending in all-NaN.",
+        note="CONDITIONAL claim: integrator accuracy (the numerical comparison in the property text) is not decided by this "
+             "technique; see DESIGN section 4."),
+})
+
 NOT_YET = "check not built yet in this revision of /verif (work in progress; see DESIGN.md section 3 for the planned obligations)"
 
 
